@@ -1,0 +1,45 @@
+//go:build verif
+
+// Contracts (machine-checked specifications) for the adapter component, read by /verif's govc.
+// This file contains comments only and compiles to nothing with or without the tag.
+
+package adapter
+
+// ---------------------------------------------------------------------------------------------
+// Passthrough payload size limit (C18)
+// ---------------------------------------------------------------------------------------------
+
+// The limit in force: the stored parameter, or 0 while no parameters have been stored.
+//@ macro limitOf(a) = ite(item_set[a.params], item_params[a.params].MaxPassthroughPayloadSize, 0)
+//@ macro paramsUnchanged() = item_set == old(item_set) && item_params == old(item_params)
+//@ macro paramsAre(a, p) = item_set == store(old(item_set), a.params, true) && item_params == store(old(item_params), a.params, p)
+
+//@ func (a *Adapter) CheckPassthroughPayloadSize(ctx, passthroughPayload) (err)
+//@   requires[base] a != nil && a.logger != nil
+//@   ensures[C18] len(passthroughPayload) > limitOf(a) ==> err != nil
+//@   ensures[C18] len(passthroughPayload) <= limitOf(a) ==> err == nil
+
+//@ func (a *Adapter) SetParams(ctx, params) (err)
+//@   requires[base] a != nil
+//@   modifies item_set, item_params
+//@   ensures[C18] err == nil ==> paramsAre(a, params)
+//@   ensures[C18] err != nil ==> paramsUnchanged()
+
+//@ func (s msgServer) UpdateParams(ctx, msg) (resp, err)
+//@   requires[base] msg != nil && s.Adapter != nil && s.Authorizer != nil
+//@   modifies item_set, item_params
+//@   ensures[C18] err == nil ==> paramsAre(s.Adapter, msg.Params)
+//@   ensures[C18] err != nil ==> paramsUnchanged()
+
+//@ func (a *Adapter) InitGenesis(ctx, g) (err)
+//@   requires[base] a != nil
+//@   modifies item_set, item_params
+//@   ensures[C18] err == nil ==> g != nil && paramsAre(a, g.Params)
+//@   ensures[C18] err != nil ==> paramsUnchanged()
+
+// The limit is checked before anything else happens in the pre-transfer hook: a too long passthrough
+// payload is refused with the ledger untouched.
+//@ func (a *Adapter) commonBeforeTransferHook(ctx, denom, passthroughPayload) (err)
+//@   requires[base] a != nil && a.logger != nil && a.bankKeeper != nil
+//@   modifies bank
+//@   ensures[C18] len(passthroughPayload) > limitOf(a) ==> err != nil && bank == old(bank)
